@@ -418,6 +418,23 @@ class _Subst(ast.NodeTransformer):
     d = ds[0]
     if any(isinstance(x, (ast.Yield, ast.Await)) for x in ast.walk(d)):
       return n
+    # `xs = []` filled by one append per element of a loop == a comprehension
+    if isinstance(d, ast.List) and not d.elts:
+      lm = listmap(self.fi.node, n.id)
+      if lm is not None:
+        import copy as _copy
+        tgt, src, elt = lm
+        comp = ast.ListComp(
+            elt=_copy.deepcopy(elt),
+            generators=[ast.comprehension(target=_copy.deepcopy(tgt),
+                                          iter=_copy.deepcopy(src), ifs=[], is_async=0)])
+        # expand the source at the loop, the element with the loop variable bound
+        bound = {x.id for x in ast.walk(tgt) if isinstance(x, ast.Name)}
+        comp.generators[0].iter = _Subst(self.fi, src, self.depth - 1,
+                                         self.bound).visit(comp.generators[0].iter)
+        comp.elt = _Subst(self.fi, elt, self.depth - 1,
+                          self.bound | bound).visit(comp.elt)
+        return self._comp(comp) if hasattr(self, '_comp') else comp
     # `node = self.generic_visit(node)` / `x = self.visit(x)` keep the identity
     if isinstance(d, ast.Call) and isinstance(d.func, ast.Attribute) and \
         d.func.attr in ('generic_visit', 'visit') and len(d.args) == 1 and \
@@ -504,3 +521,50 @@ def expand(fi, expr, at=None, depth=6):
 
 def xnorm(fi, expr, at=None, depth=6):
   return ast.unparse(expand(fi, expr, at, depth))
+
+
+# ---------------------------------------------------------------- list maps
+def listmap(fn_node, name):
+  """How the local list `name` is built from another sequence, one element per
+  source element, in order.  Understands
+      name = [ELT for T in SRC]                      (no filter, one generator)
+      name = []; for T in SRC: <exactly one name.append(X) on every path>
+  and returns (target_node, source_node, elt_expr) with the loop form folded
+  into a conditional expression, or None."""
+  for st in fn_node.body:
+    if isinstance(st, ast.Assign) and len(st.targets) == 1 and isinstance(
+        st.targets[0], ast.Name) and st.targets[0].id == name and isinstance(
+            st.value, ast.ListComp) and len(st.value.generators) == 1 and \
+        not st.value.generators[0].ifs:
+      g = st.value.generators[0]
+      return g.target, g.iter, st.value.elt
+  init = False
+  for st in fn_node.body:
+    if isinstance(st, ast.Assign) and len(st.targets) == 1 and isinstance(
+        st.targets[0], ast.Name) and st.targets[0].id == name and isinstance(
+            st.value, ast.List) and not st.value.elts:
+      init = True
+    if init and isinstance(st, ast.For) and not st.orelse:
+      elt = _fold_appends(st.body, name)
+      if elt is not None:
+        return st.target, st.iter, elt
+  return None
+
+
+def _fold_appends(stmts, name):
+  """the single value appended to `name` on every path through stmts, as an
+  expression (if/else -> IfExp), or None"""
+  if len(stmts) != 1:
+    return None
+  s = stmts[0]
+  if isinstance(s, ast.Expr) and isinstance(s.value, ast.Call) and isinstance(
+      s.value.func, ast.Attribute) and s.value.func.attr == 'append' and isinstance(
+          s.value.func.value, ast.Name) and s.value.func.value.id == name and \
+      len(s.value.args) == 1:
+    return s.value.args[0]
+  if isinstance(s, ast.If) and s.orelse:
+    a = _fold_appends(s.body, name)
+    b = _fold_appends(s.orelse, name)
+    if a is not None and b is not None:
+      return ast.IfExp(test=s.test, body=a, orelse=b)
+  return None
